@@ -4,7 +4,7 @@
    translation is compared with that model exhaustively on the boundary lattice inside Coq. *)
 From Coq Require Import ZArith Bool List Lia String.
 Import ListNotations.
-From GP Require Import Base.Go2v Base.Tactics Spec.SliceSpec Model.Slice Proofs.Slice Proofs.IntWord.
+From GP Require Import Base.Go2v Base.Tactics Spec.SliceSpec Spec.ListSpec Model.Slice Model.ListOps Proofs.Slice Proofs.ListOps Proofs.IntWord.
 From GP Require Gen.py_slice Gen.py_range.
 Open Scope Z_scope.
 
@@ -89,6 +89,66 @@ Theorem C13_range_length_wide_refuted : exists start stop step,
   py_range.computeRangeLength start stop step <> Some (range_len start stop step).
 Proof. exists (-9223372036854775808), 9223372036854775807, 1. vm_compute. discriminate. Qed.
 
+(* ---- the element loops of list / tuple on top of the slice normalisation (Model/ListOps.v, tied to
+   List.M__getitem__ / M__setitem__ / M__delitem__ / Tuple.M__getitem__ by the harness) compute Python's
+   sequence model (Spec/ListSpec.v) for bounds and steps of any magnitude, on lists of any length below
+   the word bound, and never reach a Go index or slice-bounds panic. *)
+
+(* x[i:j:k]: the selected elements in selection order; zero step is ValueError *)
+Theorem C13_list_getslice : forall (A : Type) (l : list A) start stop step, zlen l < IntMax ->
+  match slice_indices (zlen l) start stop step with
+  | None => list_getslice l start stop step = ValueErr
+  | Some idx => exists r, list_getslice l start stop step = Ok r /\ py_get l idx r
+  end.
+Proof. intros. apply list_getslice_spec. assumption. Qed.
+
+(* del x[i:j:k]: exactly the selected positions disappear, the rest keeps its order (also for negative steps) *)
+Theorem C13_list_delslice : forall (A : Type) (l : list A) start stop step, zlen l < IntMax ->
+  match slice_indices (zlen l) start stop step with
+  | None => list_delslice l start stop step = ValueErr
+  | Some idx => list_delslice l start stop step = Ok (py_del l idx)
+  end.
+Proof. intros. apply list_delslice_spec. assumption. Qed.
+
+(* x[i:j] = t replaces the slice; x[i:j:k] = t requires len(t) = number of selected positions, writes t[n] to the
+   n-th selected position and leaves every other position unchanged *)
+Theorem C13_list_setslice : forall (A : Type) (l new : list A) start stop step, zlen l < IntMax ->
+  match slice_bounds (zlen l) start stop step with
+  | None => list_setslice l new start stop step = ValueErr
+  | Some (a, b, s) =>
+      if s =? 1 then list_setslice l new start stop step = Ok (py_set1 l new a b)
+      else if zlen new =? slice_count a b s
+      then exists r, list_setslice l new start stop step = Ok r /\
+                     py_setx l new (idx_of a s (Z.to_nat (slice_count a b s))) r
+      else list_setslice l new start stop step = ValueErr
+  end.
+Proof. intros. apply list_setslice_spec. assumption. Qed.
+
+(* x[i], x[i] = v, del x[i]: negative indices count from the end, anything outside is IndexError *)
+Theorem C13_list_items : forall (A : Type) (l : list A) i v,
+  match norm_index (zlen l) i with
+  | None => list_getitem l i = IndexErr /\ list_setitem l i v = IndexErr /\ list_delitem l i = IndexErr
+  | Some j =>
+      0 <= j < zlen l /\
+      (exists x, nth_error l (Z.to_nat j) = Some x /\ list_getitem l i = Ok [x]) /\
+      list_setitem l i v = Ok (set_nth l (Z.to_nat j) v) /\
+      list_delitem l i = Ok (py_del l [j])
+  end.
+Proof. intros. apply list_items_spec. Qed.
+
+Theorem C13_list_ops_never_panic : forall (A : Type) (l new : list A) start stop step i v, zlen l < IntMax ->
+  list_getslice l start stop step <> Panic /\ list_setslice l new start stop step <> Panic /\
+  list_delslice l start stop step <> Panic /\ list_getitem l i <> Panic /\ list_setitem l i v <> Panic /\
+  list_delitem l i <> Panic.
+Proof. intros. apply list_ops_never_panic. assumption. Qed.
+
+Example C13_list_nonvacuous :
+  list_delslice [10; 11; 12; 13; 14; 15] None None (Some (-2)) = Ok [10; 12; 14] /\
+  list_setslice [10; 11; 12; 13; 14] [90; 91; 92] None None (Some 2) = Ok [90; 11; 91; 13; 92] /\
+  list_getslice [10; 11; 12; 13; 14] (Some (-100)) (Some 18446744073709551616) (Some 3) = Ok [10; 13] /\
+  list_setslice [10; 11; 12] [90] (Some 5) (Some 1) None = Ok [10; 11; 12; 90].
+Proof. vm_compute. repeat split. Qed.
+
 Example C13_nonvacuous :
   get_indices 5 (Some (-100)) None (Some (-2)) = None \/
   slice_indices 5 (Some 4) None (Some (-2)) = Some [4; 2; 0].
@@ -99,3 +159,8 @@ Print Assumptions C13_count.
 Print Assumptions C13_loop.
 Print Assumptions C13_gen_agrees_on_lattice.
 Print Assumptions C13_range_length.
+Print Assumptions C13_list_getslice.
+Print Assumptions C13_list_delslice.
+Print Assumptions C13_list_setslice.
+Print Assumptions C13_list_items.
+Print Assumptions C13_list_ops_never_panic.
